@@ -339,7 +339,7 @@ def impl_bad(case, i, m=None):
 def minimise(ctx, impl, case, tag, what):
     """greedy: drop operations / shorten the schedule while the oracle still rejects the implementation run"""
     best = case
-    budget = 25
+    budget = 6 if what == WHAT_HANG else 25
     improved = True
     while improved and budget > 0:
         improved = False
